@@ -82,13 +82,13 @@ def run_case(rng, tier, idx):
         if d['model'] == 'kpanel':
             from ..oracles import conical
             Ko, S = conical.kG0_oracle(p, N[0], N[1], N[2])
-            tol = 1e-9
+            tol = 1e-9 * gen.subinterval_amplification(d)
         else:
             nx, ny = energy.exact_orders(p)
             xs, ys, w = energy.gauss_grid(p, nx, ny)
             G = slope_basis(p, d, xs, ys)
             Ko, S = energy.quad_form(G, Nm, w)
-            tol = TOL
+            tol = TOL * gen.subinterval_amplification(d)
         ratio, ij = entrywise_excess(blk, Ko, S, tol)
         c.judge('kG0 equals the Hessian of the pre-stress work', ratio * tol, tol,
                 data={'entry': ij, 'code': blk[ij], 'oracle': Ko[ij], 'scale': S[ij]})
